@@ -216,8 +216,12 @@ func (w *World) ruleLoopExits(r *Report, rule string, listsOnly bool) {
 						continue
 					}
 					bo, ok := iff.Cond.(*ssa.BinOp)
-					if !ok || bo.Op != token.EQL {
+					if !ok || (bo.Op != token.EQL && bo.Op != token.NEQ) {
 						continue
+					}
+					eofEdge := 0
+					if bo.Op == token.NEQ {
+						eofEdge = 1 // `if err != io.EOF { return err }` — the false edge is the terminator
 					}
 					var e ssa.Value
 					if isEOFLoad(bo.Y) {
@@ -234,7 +238,7 @@ func (w *World) ruleLoopExits(r *Report, rule string, listsOnly bool) {
 					found = true
 					pos = w.instrPos(iff)
 					// follow the true edge through further flag tests: does it stay out of the loop?
-					if w.leavesLoop(b.Succs[0], lp, map[*ssa.BasicBlock]bool{}) {
+					if w.leavesLoop(b.Succs[eofEdge], lp, map[*ssa.BasicBlock]bool{}) {
 						leaves = true
 					}
 				}
